@@ -131,3 +131,31 @@ Example C03_runner_nonvacuous :
                  PStep 1 Running (Some 0%nat) 0 NoOut].
 Proof. vm_compute. auto. Qed.
 Print Assumptions C03_runner_nonvacuous.
+
+(* ---- a retry whose delay has elapsed is accepted work: it never stays in the timer heap while the loop sleeps ----
+   For every workflow state, start event, policy oracle and schedule of environment actions: whenever the run is live
+   and the loop has blocked (nothing harvested, mailbox empty, tick buffer drained), every wake-up still pending -
+   delayed retry or waiter time-out - lies STRICTLY in the future of the clock (Proofs/RunnerFire.v: the wake-up list
+   stays ordered by time and the loop fires everything that is due).  Model/Runner.v's insert_wakeup / due are tied to
+   schedule_tick / pop_due_ticks by the timer-heap correspondence (suites/timerheap.py). *)
+From WF Require Proofs.RunnerFire.
+
+Theorem C03_run_loop_no_due_wakeup_is_left_waiting : forall P s e now acts,
+  Runner.outcome (run_at P s e now acts) = ORunning ->
+  Forall (fun w : Z * Z * tick => clock (run_at P s e now acts) < fst (fst w)) (wakeups (run_at P s e now acts)).
+Proof. exact RunnerFire.run_no_due_wakeup_left_behind. Qed.
+Print Assumptions C03_run_loop_no_due_wakeup_is_left_waiting.
+
+(* non-vacuity: an input fails at clock 100, its retry is due at 105; at 104 it is still pending (in the future), at 105
+   it has fired and nothing is left *)
+Example C03_run_loop_timers_nonvacuous :
+  let P : policy := fun _ _ f _ => if Z.ltb f 3 then PRetry 5 else PStop in
+  let s1 := {| running := false; cfg := c03_cfg;
+               workers := [(1, {| w_cfg := {| accepts := [0]; nworkers := 1; pol := Some 1 |};
+                                  queue := []; inprogress := []; collected := []; waiters := [] |})] |} in
+  let r4 := run P s1 (c03_ev 0 1) [AWorkerDone 1 0%nat [] [RFailed {| xty := 1; xmsg := 1 |} 100]; AAdvance 4] in
+  let r5 := run P s1 (c03_ev 0 1) [AWorkerDone 1 0%nat [] [RFailed {| xty := 1; xmsg := 1 |} 100]; AAdvance 4; AAdvance 1] in
+  Runner.outcome r4 = ORunning /\ map (fun w => fst (fst w)) (wakeups r4) = [105] /\ clock r4 = 104 /\
+  Runner.outcome r5 = ORunning /\ wakeups r5 = [] /\ clock r5 = 105.
+Proof. vm_compute. repeat split; reflexivity. Qed.
+Print Assumptions C03_run_loop_timers_nonvacuous.
